@@ -220,10 +220,8 @@ func ruleRegEntry(c *Ctx) {
 	// the dispatcher: the builder that looks the registry up (calls a function value of a registry's element type,
 	// directly or through a helper it alone calls)
 	var elems []types.Type
-	for _, g := range moduleGlobals(P) {
-		if mt, isM := g.Type().(*types.Pointer).Elem().Underlying().(*types.Map); isM && isSignature(mt.Elem()) {
-			elems = append(elems, mt.Elem())
-		}
+	for _, re := range registryElemTypes(P) {
+		elems = append(elems, re.elem)
 	}
 	var dispatcher *ssa.Function
 	for _, fn := range P.ModuleFuncs() {
